@@ -25,7 +25,7 @@ fn generate(ctx: &Ctx, n: usize, via_file: bool, tag: &str) -> Result<String, St
         3 => vec!["--queens".to_string(), n.to_string()],
         _ => vec!["-n".to_string(), n.to_string()],
     };
-    let file = dir.join(super::common::hostile_file_name(n, "queens.txt"));
+    let file = super::common::spelled_output(&dir, n, &super::common::hostile_file_name(n, "queens.txt"));
     if via_file {
         // the output file already exists and is longer than what will be written
         let _ = std::fs::write(&file, super::common::stale_content());
@@ -86,7 +86,7 @@ fn rerun_job(ctx: &Ctx, st: &mut Stats) {
     for (si, seq) in sequences.iter().enumerate() {
         let dir = ctx.fresh_dir(&format!("c15-rerun-{}", si));
         let _ = std::fs::create_dir_all(&dir);
-        let file = dir.join(super::common::hostile_file_name(si, "board.txt"));
+        let file = super::common::spelled_output(&dir, si + 2, &super::common::hostile_file_name(si, "board.txt"));
         let case = || json!({"kind": "rerun", "sequence": seq});
         st.evals += 1;
         let mut failed = false;
